@@ -252,7 +252,7 @@ class RepositoryMachine(Machine):
                 key = self._pick_key(rng, g, fam, species, written)
                 ops.append({"op": "read", "fam": fam, "root": root, "key": key})
             elif u < 0.74:
-                how = rng.choice(["axis2d", "shape", "charge", "species", "pecclass", "metastable", "refscalar", "refscalar"])
+                how = rng.choice(["axis2d", "shape", "charge", "species", "pecclass", "metastable", "refscalar", "refscalar", "nonnumeric", "missingfield"])
                 entries = []
                 for _ in range(rng.randint(1, 3)):
                     key = self._pick_key(rng, g, fam, species, written)
@@ -713,6 +713,25 @@ class RepositoryMachine(Machine):
                 applicable = False
             else:
                 bad["payload"][fld] = "n/a"
+        elif how == "nonnumeric":
+            arrs = sorted(k for k, v in bad["payload"].items() if isinstance(v, list))
+            if not arrs:
+                applicable = False
+            else:
+                a = arrs[op["bad"] % len(arrs)]
+                v = bad["payload"][a]
+                if v and isinstance(v[-1], list):
+                    v[-1][-1] = "n/a" if not isinstance(v[-1][-1], list) else v[-1][-1]
+                    if isinstance(v[-1][-1], list):
+                        v[-1][-1][-1] = "n/a"
+                else:
+                    v[-1] = "n/a"
+        elif how == "missingfield":
+            flds = sorted(bad["payload"])
+            if fam == "wavelength" or not flds:
+                applicable = False
+            else:
+                del bad["payload"][flds[-1 - (op["bad"] % len(flds))]]
         elif how == "charge":
             bad["key"]["ch"] = ZNUM[bad["key"]["sp"]] + 1
         elif how == "species":
